@@ -80,3 +80,36 @@ def verifyContext (chk : Spec → Spec → Bool) (g l : List Spec) : Verdict :=
   else .ok
 
 end Mmtk.Layout
+
+namespace Mmtk.Layout
+
+/-- `side_metadata_offset_after(spec)` on the 64-bit target. -/
+def offsetAfter (s : Spec) : Nat := upperBoundOffset s
+
+/-- One configuration's active side specs (as a list **sorted by offset** by the translator) and the
+bytes reserved for side metadata under that configuration. -/
+structure Row where
+  reserved : Nat
+  specs : List Spec
+deriving Repr
+
+/-- Adjacent-pair check on an offset-sorted list: each table ends before the next one begins. -/
+def sortedDisjoint : List Spec → Bool
+  | [] => true
+  | [_] => true
+  | a :: b :: rest => decide (upperBoundOffset a ≤ b.offset) && sortedDisjoint (b :: rest)
+
+/-- The decidable per-configuration obligation. -/
+def rowOk (r : Row) : Bool :=
+  r.specs.all (fun s => decide s.legal) && sortedDisjoint r.specs &&
+    r.specs.all (fun s => decide (upperBoundOffset s ≤ r.reserved))
+
+/-- Lay a list of (logBits, logRegion) out one after another starting at `base`
+(`side_first` … `side_after`, and the `define_side_metadata_specs!` macro). -/
+def layoutChain (isGlobal : Bool) (base : Nat) : List (Nat × Nat × Nat) → List Spec
+  | [] => []
+  | (name, lb, lr) :: rest =>
+    let s : Spec := { name := name, isGlobal := isGlobal, offset := base, logBits := lb, logRegion := lr }
+    s :: layoutChain isGlobal (offsetAfter s) rest
+
+end Mmtk.Layout
